@@ -3,7 +3,7 @@ use async_trait::async_trait;
 use binary_stream::futures::{
     BinaryReader, BinaryWriter, Decodable, Encodable,
 };
-use std::io::Result;
+use std::io::{Error, Result};
 use time::{Duration, OffsetDateTime};
 use tokio::io::{AsyncRead, AsyncSeek, AsyncWrite};
 
@@ -31,7 +31,13 @@ impl Decodable for UtcDateTime {
         let nanos = reader.read_u32().await?;
         self.0 = OffsetDateTime::from_unix_timestamp(seconds)
             .map_err(encoding_error)?
-            + Duration::nanoseconds(nanos as i64);
+            .checked_add(Duration::nanoseconds(nanos as i64))
+            .ok_or_else(|| {
+                Error::other(format!(
+                    "date time {}.{} is out of range",
+                    seconds, nanos
+                ))
+            })?;
         Ok(())
     }
 }
